@@ -369,6 +369,11 @@ func runCase(k kase) (res result) {
 			netUp = false
 			syncListener()
 			fw.setFrozen(true)
+		case "hang":
+			// the monitor's host accepts connections but answers nothing (hung process / blackhole)
+			fw.setFrozen(true)
+		case "unhang":
+			fw.setFrozen(!netUp)
 		case "net_up":
 			netUp = true
 			fw.setFrozen(false)
